@@ -223,10 +223,74 @@ static std::string run_case(const std::string& line) {
   return any ? out : "-";
 }
 
-int main() {
+// --params: the policy/constants the model is run with, PROBED from the compiled code (no source
+// text involved): one line  "fraction_bits=.. list_min=.. list_max=.. tick_min_us=.. rate_bytes_shift=..
+// rate_cur_shift=.. | rate:min:max ..."  for the rates given on stdin (one line, whitespace separated).
+static int probe_params() {
+  g_thread->set_time(std::chrono::microseconds(T0));
+  std::string line;
+  std::getline(std::cin, line);
+  auto* root = static_cast<ThrottleInternal*>(torrent::Throttle::create_throttle());
+  std::string out;
+  {
+    ThrottleList fresh;
+    out += "fraction_bits=" + std::to_string(ThrottleInternal::fraction_bits) + " list_min=" + std::to_string(fresh.min_chunk_size()) +
+           " list_max=" + std::to_string(fresh.max_chunk_size());
+  }
+  // smallest interval receive_tick() accepts (binary search on the behaviour)
+  {
+    uint64_t lo = 0, hi = 2000000;   // lo rejected (or 0), hi accepted
+    auto accepted = [&](uint64_t dt) {
+      auto* t = static_cast<ThrottleInternal*>(torrent::Throttle::create_throttle());
+      t->m_maxRate = 1000;
+      t->m_throttleList->enable();
+      g_thread->set_time(std::chrono::microseconds(T0));
+      t->m_time_last_tick = std::chrono::microseconds(T0);
+      g_thread->set_time(std::chrono::microseconds(T0 + dt));
+      bool ok = true;
+      try { t->receive_tick(); } catch (torrent::internal_error&) { ok = false; }
+      torrent::this_thread::scheduler()->erase(&t->m_task_tick);
+      t->m_throttleList->disable();
+      torrent::Throttle::destroy_throttle(t);
+      return ok;
+    };
+    if (accepted(0)) hi = 0;
+    while (hi - lo > 1) { uint64_t mid = (lo + hi) / 2; if (accepted(mid)) hi = mid; else lo = mid; }
+    out += " tick_min_us=" + std::to_string(hi);
+    g_thread->set_time(std::chrono::microseconds(T0));
+  }
+  // Rate::insert's own bounds: largest accepted single insert is 2^k, largest accepted m_current is 2^j
+  {
+    int kb = -1;
+    for (int k = 8; k <= 62 && kb < 0; k++) {
+      torrent::Rate r(60);
+      try { r.insert((uint64_t{1} << k) + 1); } catch (torrent::internal_error&) { kb = k; }
+    }
+    int kc = -1;
+    for (int k = 8; k <= 62 && kc < 0; k++) {
+      torrent::Rate r(60);
+      r.m_current = (uint64_t{1} << k) + 1;
+      try { r.insert(1); } catch (torrent::internal_error&) { kc = k; }
+    }
+    out += " rate_bytes_shift=" + std::to_string(kb) + " rate_cur_shift=" + std::to_string(kc);
+  }
+  out += " |";
+  for (auto& tok : split_ws(line)) {
+    uint64_t v = std::stoull(tok);
+    root->m_maxRate = v;
+    out += " " + tok + ":" + std::to_string(root->calculate_min_chunk_size()) + ":" + std::to_string(root->calculate_max_chunk_size());
+  }
+  root->m_maxRate = 0;
+  torrent::Throttle::destroy_throttle(root);
+  puts(out.c_str());
+  return 0;
+}
+
+int main(int argc, char** argv) {
   std_setup();
   g_thread = new HThread();
   torrent::system::Thread::m_self = g_thread;
+  if (argc > 1 && std::string(argv[1]) == "--params") return probe_params();
   std::string line;
   while (std::getline(std::cin, line)) {
     std::string r;
